@@ -8,6 +8,7 @@ EXTENDS RawUdp, TLC
 CONSTANTS Alphabet, MaxLen, MaxFrames
 
 Ips == {<<10, 0, 0, 1>>, <<255, 255, 255, 255>>, <<0, 0, 0, 0>>}
+IpsT == {<<10, 0, 0, 1>>, <<0, 0, 0, 0>>}                 \* the two-frame configuration substitutes this for Ips
 Ports == {67, 68, 65535}
 Ends == {[ip |-> i, port |-> p] : i \in Ips, p \in Ports}
 Bound == [ip |-> <<>>, port |-> 68]
@@ -29,7 +30,7 @@ Mangle(f, m) ==
       [] m = "port" -> [f EXCEPT ![24] = 69]
       [] m = "tlbig" -> [f EXCEPT ![3] = 255]
 Send(p, s, d, m) ==
-    /\ Len(wire) < MaxFrames
+    /\ Len(wire) < MaxFrames /\ got = <<>>                             \* frames are sent, then the reader runs once
     /\ LET f == FrameWith(p, s, d, IF UdpSum(p, s, d) = 0 THEN 65535 ELSE UdpSum(p, s, d)) IN
        wire' = Append(wire, [f |-> Mangle(f, m), m |-> m, payload |-> p, src |-> s, dst |-> d])
     /\ got' = got
